@@ -46,7 +46,7 @@ pub struct Evidence {
 }
 
 pub fn write_evidence(ev: &Evidence) {
-    let dir = verif_root().join("evidence");
+    let dir = std::env::var_os("VERIF_EVIDENCE_DIR").map(PathBuf::from).unwrap_or_else(|| verif_root().join("evidence"));
     let _ = std::fs::create_dir_all(&dir);
     let v = json!({
         "property_id": ev.property_id,
